@@ -136,6 +136,21 @@ pub fn check_accepted(unit: &Value, u: &Unit, p: &bpaf::OptionParser<Val>, t: &T
             }
         }
     }
+    // (a') word ledger for groups inside groups: every plain word of the line is a value leaf of
+    // the result, once
+    if u.family == "loose-group-in-group" && (only.is_none() || only == Some("word-ledger")) {
+        let mut expected: Vec<Vec<u8>> = argv.iter().filter(|t| !t.0.starts_with(b"-")).map(|t| t.0.clone()).collect();
+        let mut leaves = vec![];
+        val.leaves(&mut leaves);
+        let mut got: Vec<Vec<u8>> = leaves.into_iter().map(|l| l.0.clone()).collect();
+        expected.sort();
+        got.sort();
+        ctx.count("word-ledger-checked");
+        if expected != got {
+            let r = Outcome::Value(val.clone());
+            ctx.violation(viol("ledger-no-item-dropped-or-delivered-twice", &u.family, "word-ledger", unit, argv, argv, format!("value leaves {:?}", expected.iter().map(|x| Tok(x.clone()).enc()).collect::<Vec<_>>()), &r));
+        }
+    }
     // (c) every item matters: without it the outcome differs
     if u.removal && (only.is_none() || only == Some("removed")) {
         for i in 0..argv.len() {
@@ -251,6 +266,33 @@ impl Check for C05 {
             let alpha = toks(&["-é", "-a", "-ж", "-éa", "-aж", "-éx", "-aéx", "-жжx", "-xé", "w", "--", "-z"]);
             out.push(serde_json::to_value(Unit { opts: l.to_opts(), len: tier.pick(4, 5), family: "loose-non-ascii-shorts".into(), alpha, no_ledger: true, removal: true }).unwrap());
         }
+        // counted occurrences of a typed item, of a guarded positional and of a group: an
+        // occurrence that cannot be counted is not dropped
+        {
+            let n = P::arg(Names::both('n', "num"), Ty::U32);
+            let grp = P::Seq(vec![P::ReqFlag(Names::short('a')), P::ReqFlag(Names::short('b'))]);
+            for (d, alpha) in [
+                (P::Count(n.clone().bx()), toks(&["-n=1", "-n=x", "-n", "1", "-v"])),
+                (P::Count(P::Guard(P::pos(Ty::U32).bx(), GuardK::Lt10).bx()), toks(&["1", "2", "50", "x", "-v"])),
+                (P::Count(grp.bx()), toks(&["-a", "-b", "-v", "-ab"])),
+            ] {
+                out.push(serde_json::to_value(Unit { opts: Opts::new(P::Seq(vec![P::Switch(Names::short('v')), d])), len: tier.pick(4, 5), family: "loose-counted".into(), alpha, no_ledger: true, removal: true }).unwrap());
+            }
+        }
+        // an adjacent group inside an adjacent group: `--tag (-x P)..`
+        {
+            let pos = |m: &str| P::Pos { ty: Ty::Os, strict: Strict::Any, metavar: m.into(), help: None };
+            let inner = P::Adj(vec![P::ReqFlag(Names::short('x')), pos("P")]).many();
+            for outer_wrap in 0..3 {
+                let g = P::Adj(vec![P::ReqFlag(Names::long("tag")), inner.clone()]);
+                let g = match outer_wrap {
+                    0 => g,
+                    1 => g.opt(),
+                    _ => g.many(),
+                };
+                out.push(serde_json::to_value(Unit { opts: Opts::new(P::Seq(vec![g])), len: tier.pick(5, 6), family: "loose-group-in-group".into(), alpha: toks(&["--tag", "-x", "1", "2"]), no_ledger: true, removal: true }).unwrap());
+            }
+        }
         for (o, alpha) in loose_groups() {
             out.push(serde_json::to_value(Unit { opts: o, len: tier.pick(4, 5), family: "loose-group".into(), alpha, no_ledger: true, removal: true }).unwrap());
         }
@@ -291,7 +333,7 @@ impl Check for C05 {
         match run(&p, &base) {
             Outcome::Value(v) => {
                 let mut c2 = Ctx::new(ctx.tier, ctx.seed);
-                check_accepted(unit, &u, &p, &t, &base, &v, Some(if what == "none" { "ledger" } else { &what }), &mut c2);
+                check_accepted(unit, &u, &p, &t, &base, &v, Some(if what == "none" { if u.family == "loose-group-in-group" { "word-ledger" } else { "ledger" } } else { &what }), &mut c2);
                 for (k, (n, v)) in c2.s.violations {
                     if serde_json::from_value::<Vec<Tok>>(v.case["argv"].clone()).map_or(false, |a| a == want) {
                         ctx.s.violations.insert(k, (n, v));
